@@ -50,7 +50,13 @@ fn main() {
             }
             Err(e) => format!("rejected {}", e.to_string().len()),
         };
-        println!("CASE {} {}", k, outcome);
+        // the formatter (parser + printer) on the same text
+        let mut formatted: Vec<u8> = Vec::new();
+        let fmt = match okane_core::format::FormatOptions::new().format(&mut case.as_bytes(), &mut formatted) {
+            Ok(()) => format!("formatted {}", formatted.len()),
+            Err(e) => format!("format-error {}", e.to_string().len()),
+        };
+        println!("CASE {} {} {}", k, outcome, fmt);
         ran += 1;
     }
     println!("DONE {}", ran);
